@@ -151,6 +151,13 @@ func TestCheck(t *testing.T) {
 			}
 		}
 	}
+	// Other connections trying to get in while a transaction is being captured (see prog.Case.Intrude).
+	for _, ps := range []int{512, 4096} {
+		for _, pre := range [][]prog.Op{{}, {wtx([]uint32{1, 2}, 0, 0, "commit"), {Kind: "ckpt", Mode: "PASSIVE"}}, {wtx([]uint32{1, 2, 3}, 0, 1, "commit"), {Kind: "ckpt", Mode: "RESTART"}}} {
+			ops := append(append([]prog.Op{}, pre...), wtx([]uint32{1, 2}, 0, 0, "commit"), wtx([]uint32{1, 3, 4}, 4, 2, "commit"), wtx([]uint32{2}, 0, 0, "commit"))
+			cases = append(cases, prog.Case{PageSize: ps, Start: 3, StartWAL: true, Ops: ops, Intrude: true})
+		}
+	}
 	// Big-endian checksum order and LZ4: a slice of the programs.
 	n := len(cases)
 	for i := 0; i < n; i += 11 {
